@@ -226,9 +226,15 @@ def contract_text(fs, labels, lineno_base):
     out = []
     for r in fs.requires:
         out.append('__CPROVER_requires(%s)' % r)
-    for lab, e in fs.ensures:
+    for idx, (lab, e) in enumerate(fs.ensures):
+        if fs.split > 1:
+            # `split K`: the postconditions are discharged in K separate builds (in
+            # parallel); a build with VERIF_ENS_GROUP == g carries every K-th clause
+            out.append('#if !defined(VERIF_ENS_GROUP_%s) || VERIF_ENS_GROUP_%s == %d' % (fs.name, fs.name, idx % fs.split))
         labels.append((lineno_base + len(out), lab))
         out.append('__CPROVER_ensures(%s)' % e)
+        if fs.split > 1:
+            out.append('#endif')
     tg = [a for a in fs.assigns if a.strip() and a.strip() != 'nothing']
     if fs.enforce_requires:
         # assumptions about GHOST state made only where the contract is enforced
@@ -384,6 +390,8 @@ def assemble(ub):
             else:
                 L.append('  %s r; return r;' % ret)
         L.append('}')
+    for nm, txt in em.extra_fns.items():
+        L.append(txt)
     for n in fn_macros:
         L.append(lib.gen[n])
     for p in us.prelude:
@@ -528,6 +536,34 @@ def tier_bound(u, tier):
 
 
 def run_function(ub, fs, tier='quick', solver=None, extra_defs=()):
+    if fs.split > 1 and not any(x.startswith('VERIF_ENS_GROUP_') for x in extra_defs):
+        return run_split(ub, fs, tier, solver, extra_defs)
+    return run_function1(ub, fs, tier, solver, extra_defs)
+
+
+def run_split(ub, fs, tier, solver, extra_defs):
+    from concurrent.futures import ThreadPoolExecutor as TPE
+    groups = list(range(min(fs.split, max(1, len(fs.ensures)))))
+    with TPE(max_workers=len(groups)) as ex:
+        rs = list(ex.map(lambda g: run_function1(ub, fs, tier, solver, tuple(extra_defs) + ('VERIF_ENS_GROUP_%s=%d' % (fs.name, g),), vacuity=(g == 0)), groups))
+    R = rs[0]
+    seen = set((o['id'], o['line']) for o in R['obligations'])
+    for r in rs[1:]:
+        for o in r['obligations']:
+            # postconditions are numbered per build: identify them by their source line
+            key = (o['id'] if '.postcondition.' not in o['id'] else 'post', o['line'], o['description'])
+            if '.postcondition.' in o['id']:
+                o = dict(o, id='%s.g%s' % (o['id'], r['group']))
+                R['obligations'].append(o)
+            elif o['status'] != 'SUCCESS' and (o['id'], o['line']) not in seen:
+                R['obligations'].append(o)
+        for k, v in r['seconds'].items():
+            R['seconds'][k] = max(R['seconds'].get(k, 0), v)
+        R['cmds'] += r['cmds'][-1:]
+    return R
+
+
+def run_function1(ub, fs, tier='quick', solver=None, extra_defs=(), vacuity=True):
     """goto-cc, unwind, dfcc, cbmc for one function under contract."""
     us = ub.spec
     d = ub.dir
@@ -536,7 +572,7 @@ def run_function(ub, fs, tier='quick', solver=None, extra_defs=()):
     gb1 = os.path.join(d, tag + '.1.gb')
     gb2 = os.path.join(d, tag + '.2.gb')
     R = dict(function=fs.name, unit=us.name, cmds=[], obligations=[], seconds={}, status='ok', covers=None,
-             bounded=fs.bounded, property=fs.property)
+             bounded=fs.bounded, property=fs.property, group=next((x.split('=')[1] for x in extra_defs if x.startswith('VERIF_ENS_GROUP_')), None))
     harness = 'h_' + fs.name
     repl_defs = ['-DVERIF_REPLACING_%s' % g for g in fs.replace] + ['-D' + x for x in fs.defines] + (['-DVERIF_TIER_THOROUGH'] if tier == 'thorough' else [])
     cmd = ['goto-cc', '-DVERIF_CBMC', '-I' + VERIF] + ['-D' + x for x in extra_defs] + repl_defs + us.cflags + ['--function', harness, ub.cfile, '-o', gb0]
@@ -547,7 +583,20 @@ def run_function(ub, fs, tier='quick', solver=None, extra_defs=()):
         raise Undecided('sidecar-binding-broken', 'goto-cc failed for %s:\n%s' % (fs.name, (so + se)[-3000:]))
     cur = gb0
     uw = [tier_bound(u, tier) for u, _ in fs.unwind]
-    if fs.unwind:
+    if fs.unwind_all:
+        # every loop of the program that has no loop contract in the sidecar gets the stated bound
+        rc, so, se, t = sh(['goto-instrument', '--show-loops', gb0], timeout=120)
+        have = set(u.rpartition(':')[0] for u in uw)
+        b = tier_bound('x:' + fs.unwind_all[0], tier).rpartition(':')[2]
+        for m in re.finditer(r'^Loop (\S+?):', so, re.M):
+            lid = m.group(1)
+            fn, _, k = lid.rpartition('.')
+            f2 = us.functions.get(fn)
+            if f2 is not None and int(k) in f2.loops:
+                continue
+            if lid not in have:
+                uw.append('%s:%s' % (lid, b))
+    if uw:
         cmd = ['goto-instrument', '--unwindset', ','.join(uw), '--unwinding-assertions', cur, gb1]
         rc, so, se, t = sh(cmd, timeout=300)
         R['cmds'].append(' '.join(cmd))
@@ -611,14 +660,14 @@ def run_function(ub, fs, tier='quick', solver=None, extra_defs=()):
     # vacuity: second build in which every return of the function under
     # contract and the harness end carry assert(0): each must FAIL (= reachable
     # under the same preconditions / loop abstractions / callee contracts)
-    if fs.covers and not extra_defs:
+    if fs.covers and vacuity and not [x for x in extra_defs if not x.startswith('VERIF_ENS_GROUP_')] and not (fs.cover_thorough_only and tier != 'thorough'):
         gbv0 = os.path.join(d, tag + '.v0.gb')
         gbv1 = os.path.join(d, tag + '.v1.gb')
         gbv2 = os.path.join(d, tag + '.v2.gb')
         cmd = ['goto-cc', '-DVERIF_CBMC', '-DVERIF_VACUITY', '-DVERIF_VACUITY_FN=%d' % ub.fn_index[fs.name], '-I' + VERIF] + repl_defs + us.cflags + ['--function', harness, ub.cfile, '-o', gbv0]
         rc, so, se, t = sh(cmd, timeout=120)
         curv = gbv0
-        if rc == 0 and fs.unwind:
+        if rc == 0 and uw:
             rc, so, se, t = sh(['goto-instrument', '--unwindset', ','.join(uw), '--unwinding-assertions', curv, gbv1], timeout=300)
             curv = gbv1
         if rc == 0:
